@@ -39,6 +39,12 @@ CONSTANTS
   AgeAtDecision,  \* TRUE: Age is computed by the lookup that decided the hit (repair of F4)
   LoadAtomic,     \* TRUE: a record is decoded aside and committed only if well-formed (repair of F6)
   PurgeFences,    \* TRUE: a purge marks the entry it removes so that it does not persist itself later (repair of F13)
+  \* relaxed synchronisation (TRUE describes the code at HEAD; FALSE is used only to generate schedules that a
+  \* weaker locking would admit -- replayed on the real code they are either refused by its locks or followed)
+  SaveUnderLock,    \* TRUE: the store write of a publication happens inside the entry's critical section
+  PurgeHoldsShard,  \* TRUE: a purge keeps the shard locked until the persisted copy is deleted
+  AbsentPurge,      \* BOOLEAN: purges naming a cache that does not exist are explored too
+  Reapplies,        \* BOOLEAN: the unchanged cache configuration is applied again (ResetDispatchers) at arbitrary moments
   Ghost           \* TRUE: maintain the observation state (FALSE: design invariants and liveness only, far fewer states)
 
 VARIABLES
@@ -133,6 +139,15 @@ StoreDrop(d, k) ==
   /\ store' = [store EXCEPT ![d][k] = NoRec]
   /\ drops' = drops + 1
   /\ UNCHANGED <<now, ticks, lru, ent, est, nextEnt, elock, slock,
+                 pc, rkey, rdisp, rmeth, rent, rst, rresp, rout, rttl, rsend, rver,
+                 ppc, pkey, ptodo, pcur, pall, starts, nver, purges, kills, obs>>
+
+(* the configuration is applied again with the caches unchanged (main.go update -> cache.ResetDispatchers):
+   existing dispatchers are kept as they are.  Counted with the store drops (both are bounded environment events). *)
+Reapply ==
+  /\ Reapplies /\ drops < MaxDrops
+  /\ drops' = drops + 1
+  /\ UNCHANGED <<now, ticks, lru, ent, est, nextEnt, elock, slock, store,
                  pc, rkey, rdisp, rmeth, rent, rst, rresp, rout, rttl, rsend, rver,
                  ppc, pkey, ptodo, pcur, pall, starts, nver, purges, kills, obs>>
 
@@ -329,7 +344,7 @@ CLock(r) ==
                                           !.expiredAt = now + rttl[r], !.waiters = <<>>]]
   /\ rsend' = [rsend EXCEPT ![r] = E.waiters]
   /\ pc' = [pc EXCEPT ![r] = IF E.waiters = <<>> THEN "cab.save" ELSE "cab.send"]
-  /\ obs' = G(O!OPublish(obs, e, E.disp, E.key, rver[r], now, rttl[r]))
+  /\ obs' = G(O!OPublish(obs, e, E.disp, E.key, rver[r], now, rttl[r], HasStore[E.disp]))
   /\ UNCHANGED <<now, ticks, lru, ent, nextEnt, slock, store, rkey, rdisp, rmeth, rent, rst, rresp, rout, rttl, rver,
                  ppc, pkey, ptodo, pcur, pall, starts, nver, purges, kills, drops>>
 
@@ -341,7 +356,7 @@ HLock(r) ==
   /\ est' = [est EXCEPT ![e] = [E EXCEPT !.status = "hitForPass", !.expiredAt = now + eff, !.waiters = <<>>]]
   /\ rsend' = [rsend EXCEPT ![r] = E.waiters]
   /\ pc' = [pc EXCEPT ![r] = IF E.waiters = <<>> THEN "hfp.save" ELSE "hfp.send"]
-  /\ obs' = G(O!OHfp(obs, e, E.disp, E.key, now, eff))
+  /\ obs' = G(O!OHfp(obs, e, E.disp, E.key, now, eff, HasStore[E.disp]))
   /\ UNCHANGED <<now, ticks, lru, ent, nextEnt, slock, store, rkey, rdisp, rmeth, rent, rst, rresp, rout, rttl, rver,
                  ppc, pkey, ptodo, pcur, pall, starts, nver, purges, kills, drops>>
 
@@ -367,8 +382,10 @@ SaveBegin(r) ==
   /\ pc[r] \in {"cab.save", "hfp.save"}
   /\ HasStore[d] /\ ~(PurgeFences /\ E.removed)
   /\ pc' = [pc EXCEPT ![r] = IF pc[r] = "cab.save" THEN "cab.saving" ELSE "hfp.saving"]
-  /\ UNCHANGED <<now, ticks, lru, ent, est, nextEnt, elock, slock, store, rkey, rdisp, rmeth, rent, rst, rresp, rout, rttl, rsend, rver,
-                 ppc, pkey, ptodo, pcur, pall, starts, nver, purges, kills, drops, obs>>
+  /\ elock' = IF SaveUnderLock THEN elock ELSE [elock EXCEPT ![e] = Free]
+  /\ obs' = G(O!OSetTried(obs, E.key))
+  /\ UNCHANGED <<now, ticks, lru, ent, est, nextEnt, slock, store, rkey, rdisp, rmeth, rent, rst, rresp, rout, rttl, rsend, rver,
+                 ppc, pkey, ptodo, pcur, pall, starts, nver, purges, kills, drops>>
 
 (* saveToStore, second half (the store writes, or fails), then Unlock; without a store: just Unlock *)
 Save(r, ok) ==
@@ -377,14 +394,14 @@ Save(r, ok) ==
      \/ (pc[r] \in {"cab.save", "hfp.save"} /\ ~(HasStore[d] /\ ~(PurgeFences /\ E.removed)))
   /\ IF pc[r] \in {"cab.saving", "hfp.saving"}
      THEN /\ ok \in SaveResults
-          /\ store' = IF ok THEN [store EXCEPT ![d][E.key] =
+          /\ store' = IF ok /\ (SaveUnderLock \/ E.status \in {"hit", "hitForPass"}) THEN [store EXCEPT ![d][E.key] =
                                     [status |-> E.status, resp |-> E.resp,
                                      createdAt |-> E.createdAt, expiredAt |-> E.expiredAt]]
                       ELSE store
      ELSE /\ ok = TRUE /\ UNCHANGED store
-  /\ elock' = [elock EXCEPT ![e] = Free]
+  /\ elock' = IF SaveUnderLock \/ pc[r] \in {"cab.save", "hfp.save"} THEN [elock EXCEPT ![e] = Free] ELSE elock
   /\ pc' = [pc EXCEPT ![r] = "end"]
-  /\ obs' = G(IF pc[r] \in {"cab.saving", "hfp.saving"} /\ ok THEN O!OPersisted(obs, E.key, IF E.status = "hit" THEN E.resp ELSE 0, TRUE) ELSE obs)
+  /\ obs' = G(IF pc[r] \in {"cab.saving", "hfp.saving"} /\ ok /\ (SaveUnderLock \/ E.status \in {"hit", "hitForPass"}) THEN O!OPersisted(obs, E.key, IF E.status = "hit" THEN E.resp ELSE 0, TRUE) ELSE obs)
   /\ UNCHANGED <<now, ticks, lru, ent, est, nextEnt, slock, rkey, rdisp, rmeth, rent, rst, rresp, rout, rttl, rsend, rver,
                  ppc, pkey, ptodo, pcur, pall, starts, nver, purges, kills, drops>>
 
@@ -419,6 +436,16 @@ PurgeStart(p, k, ds) ==
                  pc, rkey, rdisp, rmeth, rent, rst, rresp, rout, rttl, rsend, rver,
                  starts, nver, kills, drops>>
 
+(* a purge naming a cache that does not exist: returns at once, nothing is touched *)
+PurgeAbsent(p, k) ==
+  /\ AbsentPurge
+  /\ ppc[p] = "idle" /\ purges < MaxPurges
+  /\ purges' = purges + 1
+  /\ obs' = G(O!OPurgeReturn(O!OPurgeCall(obs, {}, k), {}, k))
+  /\ UNCHANGED <<now, ticks, lru, ent, est, nextEnt, elock, slock, store,
+                 pc, rkey, rdisp, rmeth, rent, rst, rresp, rout, rttl, rsend, rver,
+                 ppc, pkey, ptodo, pcur, pall, starts, nver, kills, drops>>
+
 PurgeAdvance(p) ==   \* this dispatcher is done: next one, or finished
   IF ptodo[p] = <<>>
   THEN /\ ppc' = [ppc EXCEPT ![p] = "idle"] /\ UNCHANGED <<ptodo, pcur>>
@@ -433,7 +460,7 @@ PurgeDoRemove(p, e, held) ==
   /\ lru' = [lru EXCEPT ![d][z] = Remove(@, k)]
   /\ ent' = [ent EXCEPT ![d][k] = 0]
   /\ IF HasStore[d]
-     THEN /\ slock' = [slock EXCEPT ![d][z] = p]
+     THEN /\ slock' = [slock EXCEPT ![d][z] = IF PurgeHoldsShard THEN p ELSE Free]
           /\ ppc' = [ppc EXCEPT ![p] = "purge.delete"]
           /\ obs' = G(o1)
           /\ UNCHANGED <<ptodo, pcur>>
@@ -473,7 +500,7 @@ PurgeDelete(p, ok) ==
   /\ ppc[p] = "purge.delete"
   /\ ok \in SaveResults
   /\ store' = IF ok THEN [store EXCEPT ![d][k] = NoRec] ELSE store
-  /\ slock' = [slock EXCEPT ![d][z] = Free]
+  /\ slock' = IF PurgeHoldsShard THEN [slock EXCEPT ![d][z] = Free] ELSE slock
   /\ obs' = G(IF ptodo[p] = <<>> THEN O!OPurgeReturn(O!OPurged(obs, d, k, ok), pall[p], k)
                                ELSE O!OPurged(obs, d, k, ok))
   /\ PurgeAdvance(p)
@@ -500,12 +527,14 @@ ReqStep(r) ==
 PurgeStep(p) ==
   \/ \E k \in Keys, d \in Disp : PurgeStart(p, k, <<d>>)
   \/ (UnnamedPurge /\ \E k \in Keys : PurgeStart(p, k, SeqOfDisp))
+  \/ \E k \in Keys : PurgeAbsent(p, k)
   \/ PurgeRemove(p) \/ PurgeFence(p)
   \/ \E ok \in BOOLEAN : PurgeDelete(p, ok)
 
 Env ==
   \/ \E j \in Jumps : Tick(j)
   \/ \E d \in Disp, k \in Keys : StoreDrop(d, k)
+  \/ Reapply
   \/ Kill
 
 Quiescent == (\A r \in Req : pc[r] = "idle") /\ (\A p \in Purgers : ppc[p] = "idle")
@@ -552,6 +581,8 @@ I_HfpLapses         == O!P_HfpLapses(obs)
 I_PurgeEffective    == O!P_PurgeEffective(obs)
 I_BadRecordIsMiss   == O!P_BadRecordIsMiss(obs)
 I_NoOwnError        == O!P_NoOwnError(obs)
+I_PublishedIsPersisted == O!P_PublishedIsPersisted(obs)
+I_NoWildRemoval     == O!P_NoWildRemoval(obs)
 
 (* C02 liveness *)
 L_EveryRequestCompletes == \A r \in Req : (pc[r] # "idle") ~> (pc[r] = "idle")
